@@ -1,1 +1,246 @@
-/-! # C15 — property theorems (not built yet) -/
+import PysphVerif.Lemmas.Riemann
+/-!
+# C15 — Riemann solvers are reflection-symmetric; contact solvers are admissible
+
+Property theorems only.  They are about the definitions of
+`Gen/Riemann.lean`, which `translate/riemann2lean.py` regenerates from
+`pysph/sph/gas_dynamics/riemann_solver.py` on every run (and validates by
+bit-exact execution against the Python source), instantiated over an
+arbitrary linearly ordered field `K` with `fieldOps sqrt pow`: `sqrt` and `pow`
+are abstract functions; every theorem lists the facts about them it uses.
+
+`ReflectSym f …` : swapping the sides and negating the velocities gives the
+same return code and, on success, the same `p*` and the negated `u*`.
+`EqualStates f …` : equal left and right states give code 0 and that state.
+-/
+set_option linter.unusedSectionVars false
+set_option linter.unusedSimpArgs false
+namespace PysphVerif.C15
+open PysphVerif.Riemann PysphVerif.Gen.Riemann
+variable {K : Type} [Field K] [LinearOrder K] [IsStrictOrderedRing K]
+
+/-- the common signature of the generated solvers (after the `Ops` record) -/
+abbrev Solver (K : Type) := K → K → K → K → K → K → K → Int → K → K → K → Res K
+
+/-- reflection symmetry of one solver at one state, for every initial content
+of the `result` list -/
+def ReflectSym (f : Solver K) (rhol rhor pl pr ul ur gamma tol : K) (niter : Int) : Prop :=
+  ∀ r0 r1 : K,
+    (f rhor rhol pr pl (-ur) (-ul) gamma niter tol r0 r1).code
+      = (f rhol rhor pl pr ul ur gamma niter tol r0 r1).code ∧
+    ((f rhol rhor pl pr ul ur gamma niter tol r0 r1).code = 0 →
+      (f rhor rhol pr pl (-ur) (-ul) gamma niter tol r0 r1).r0
+        = (f rhol rhor pl pr ul ur gamma niter tol r0 r1).r0 ∧
+      (f rhor rhol pr pl (-ur) (-ul) gamma niter tol r0 r1).r1
+        = -(f rhol rhor pl pr ul ur gamma niter tol r0 r1).r1)
+
+/-- equal states on both sides are returned unchanged, with code 0 -/
+def EqualStates (f : Solver K) (rho p u gamma tol : K) (niter : Int) : Prop :=
+  ∀ r0 r1 : K,
+    (f rho rho p p u u gamma niter tol r0 r1).code = 0 ∧
+    (f rho rho p p u u gamma niter tol r0 r1).r0 = p ∧
+    (f rho rho p p u u gamma niter tol r0 r1).r1 = u
+
+/-- what the theorems assume about `sqrt` : positive on positive arguments -/
+def SqrtPos (sqrt : K → K) : Prop := ∀ x : K, 0 < x → 0 < sqrt x
+
+section
+variable (sqrt : K → K) (pow : K → K → K)
+  (rhol rhor pl pr ul ur gamma tol rho p u : K) (niter : Int)
+
+/-! ## reflection symmetry: the non-iterative solvers (no hypothesis on the data
+or on `sqrt` is needed: the identities are purely algebraic) -/
+
+theorem reflect_non_diffusive :
+    ReflectSym (non_diffusive (fieldOps sqrt pow)) rhol rhor pl pr ul ur gamma tol niter := by
+  intro r0 r1
+  simp only [non_diffusive, Nat.cast_ofNat, Nat.cast_one]
+  exact ⟨trivial, fun _ => ⟨by ring, by ring⟩⟩
+
+theorem reflect_roe :
+    ReflectSym (roe (fieldOps sqrt pow)) rhol rhor pl pr ul ur gamma tol niter := by
+  intro r0 r1
+  simp only [roe, fieldOps_sqrt, Nat.cast_ofNat, Nat.cast_one]
+  refine ⟨trivial, fun _ => ⟨?_, ?_⟩⟩
+  · ring_nf
+  · ring_nf
+
+theorem reflect_llxf :
+    ReflectSym (llxf (fieldOps sqrt pow)) rhol rhor pl pr ul ur gamma tol niter := by
+  intro r0 r1
+  simp only [llxf, fieldOps_sqrt, Nat.cast_ofNat, Nat.cast_one, pymax_eq_max]
+  refine ⟨trivial, fun _ => ⟨?_, ?_⟩⟩
+  · rw [max_comm]; ring
+  · rw [max_comm]; ring
+
+theorem reflect_hllsy :
+    ReflectSym (hllsy (fieldOps sqrt pow)) rhol rhor pl pr ul ur gamma tol niter := by
+  intro r0 r1
+  simp only [hllsy, fieldOps_sqrt, Nat.cast_ofNat, Nat.cast_one, pymax_eq_max]
+  have e : sqrt rhor * sqrt (gamma * pr * rhor) + sqrt rhol * sqrt (gamma * pl * rhol)
+      = sqrt rhol * sqrt (gamma * pl * rhol) + sqrt rhor * sqrt (gamma * pr * rhor) := by ring
+  have e2 : sqrt rhol + sqrt rhor = sqrt rhor + sqrt rhol := by ring
+  rw [e, e2]
+  refine ⟨trivial, fun _ => ⟨?_, ?_⟩⟩
+  · ring
+  · ring
+
+theorem reflect_hlle :
+    ReflectSym (hlle (fieldOps sqrt pow)) rhol rhor pl pr ul ur gamma tol niter := by
+  intro r0 r1
+  simp only [hlle, fieldOps_sqrt, Nat.cast_ofNat, Nat.cast_one, pymax_eq_max, pymin_eq_min]
+  generalize sqrt rhol = a
+  generalize sqrt rhor = b
+  generalize sqrt (gamma * pl * rhol) = cl
+  generalize sqrt (gamma * pr * rhor) = cr
+  have e1 : (b * cr + a * cl) / (b + a) = (a * cl + b * cr) / (a + b) := by
+    rw [add_comm (b * cr), add_comm b]
+  rw [e1]
+  generalize (a * cl + b * cr) / (a + b) = C
+  have e2 : min (-ur - cr) (-C) = -(max (ur + cr) C) := by
+    rw [← min_neg_neg]; congr 1; ring
+  have e3 : max (-ul + cl) C = -(min (ul - cl) (-C)) := by
+    rw [← max_neg_neg, neg_neg]; congr 1; ring
+  rw [e2, e3]
+  generalize max (ur + cr) C = R
+  generalize min (ul - cl) (-C) = S
+  rw [max_neg_neg, min_neg_neg, min_comm R S, max_comm R S]
+  generalize max S R = M
+  generalize min S R = m
+  have e4 : -m - -M = M - m := by ring
+  refine ⟨trivial, fun _ => ⟨?_, ?_⟩⟩
+  · rw [e4]; ring
+  · rw [e4]; ring
+
+theorem reflect_hll_ball :
+    ReflectSym (hll_ball (fieldOps sqrt pow)) rhol rhor pl pr ul ur gamma tol niter := by
+  intro r0 r1
+  simp only [hll_ball, fieldOps_sqrt, fieldOps_abs, Nat.cast_ofNat, Nat.cast_one, pymax_eq_max,
+    pymin_eq_min, abs_neg]
+  generalize sqrt rhol = a
+  generalize sqrt rhor = b
+  generalize sqrt (gamma * pl / rhol) = cl
+  generalize sqrt (gamma * pr / rhor) = cr
+  have hE : (b * cr * cr + a * cl * cl) / (b * a) +
+      1 / 2 * (gamma - 1) * (a * b) * (1 / (a + b)) * (1 / (a + b)) * (|ul| - |ur|) * (|ul| - |ur|)
+      = (a * cl * cl + b * cr * cr) / (a * b) +
+      1 / 2 * (gamma - 1) * (b * a) * (1 / (b + a)) * (1 / (b + a)) * (|ur| - |ul|) * (|ur| - |ul|) := by
+    ring
+  rw [hE]
+  generalize sqrt ((a * cl * cl + b * cr * cr) / (a * b) +
+      1 / 2 * (gamma - 1) * (b * a) * (1 / (b + a)) * (1 / (b + a)) * (|ur| - |ul|) * (|ur| - |ul|)) = C
+  have hU : (b * -ur + a * -ul) / (b * a) = -((a * ul + b * ur) / (a * b)) := by ring
+  rw [hU]
+  generalize (a * ul + b * ur) / (a * b) = U
+  have e2 : min (-U - C) (-ur - cr) = -(max (U + C) (ur + cr)) := by
+    rw [← min_neg_neg]; congr 1 <;> ring
+  have e3 : max (-U + C) (-ul + cl) = -(min (U - C) (ul - cl)) := by
+    rw [← max_neg_neg]; congr 1 <;> ring
+  rw [e2, e3]
+  generalize max (U + C) (ur + cr) = R
+  generalize min (U - C) (ul - cl) = S
+  have e4 : rhor * (-ur - -R) + rhol * (-S - -ul) = rhol * (ul - S) + rhor * (R - ur) := by ring
+  have e5 : -S - -R = R - S := by ring
+  rw [e4, e5]
+  refine ⟨trivial, fun _ => ⟨?_, ?_⟩⟩
+  · ring
+  · ring
+
+/-! ## equal states are returned unchanged (admissible data: `rho, p > 0`,
+`gamma > 0`; `sqrt` positive on positives) -/
+
+theorem equal_states_non_diffusive :
+    EqualStates (non_diffusive (fieldOps sqrt pow)) rho p u gamma tol niter := by
+  intro r0 r1
+  simp only [non_diffusive, Nat.cast_ofNat, Nat.cast_one]
+  exact ⟨trivial, by ring, by ring⟩
+
+theorem equal_states_roe (hs : SqrtPos sqrt) (hrho : 0 < rho) :
+    EqualStates (roe (fieldOps sqrt pow)) rho p u gamma tol niter := by
+  intro r0 r1
+  simp only [roe, fieldOps_sqrt, Nat.cast_ofNat, Nat.cast_one]
+  have ha : 0 < sqrt rho := hs rho hrho
+  generalize sqrt rho = a at ha
+  have h2 : a + a ≠ 0 := by positivity
+  refine ⟨trivial, ?_, ?_⟩
+  · field_simp; ring
+  · field_simp; ring
+
+theorem equal_states_llxf (hp : 0 < p) :
+    EqualStates (llxf (fieldOps sqrt pow)) rho p u gamma tol niter := by
+  intro r0 r1
+  simp only [llxf, fieldOps_sqrt, Nat.cast_ofNat, Nat.cast_one, pymax_eq_max]
+  have hp' : p ≠ 0 := hp.ne'
+  have h0 : (1 : K) / 2 * (p + p - max (sqrt (gamma * p * rho)) (sqrt (gamma * p * rho)) * (u - u)) = p := by
+    ring
+  refine ⟨trivial, h0, ?_⟩
+  rw [h0]; field_simp; ring
+
+theorem equal_states_hllsy (hs : SqrtPos sqrt) (hrho : 0 < rho) (hp : 0 < p) (hg : 0 < gamma) :
+    EqualStates (hllsy (fieldOps sqrt pow)) rho p u gamma tol niter := by
+  intro r0 r1
+  simp only [hllsy, fieldOps_sqrt, Nat.cast_ofNat, Nat.cast_one, pymax_eq_max]
+  have ha : 0 < sqrt rho := hs rho hrho
+  have hc : 0 < sqrt (gamma * p * rho) := hs _ (by positivity)
+  generalize sqrt rho = a at ha
+  generalize sqrt (gamma * p * rho) = c at hc
+  have h2 : a + a ≠ 0 := by positivity
+  have e : 1 / (a + a) * (a * c + a * c) = c := by field_simp
+  rw [e, max_self]
+  have hcc : c + c ≠ 0 := by positivity
+  have hp' : p ≠ 0 := hp.ne'
+  have h0 : c / (c + c) * p + c / (c + c) * p - c * c / (c + c) * (u - u) = p := by
+    field_simp; ring
+  refine ⟨trivial, h0, ?_⟩
+  rw [h0]; field_simp; ring
+
+theorem equal_states_hlle (hs : SqrtPos sqrt) (hrho : 0 < rho) (hp : 0 < p) (hg : 0 < gamma) :
+    EqualStates (hlle (fieldOps sqrt pow)) rho p u gamma tol niter := by
+  intro r0 r1
+  simp only [hlle, fieldOps_sqrt, Nat.cast_ofNat, Nat.cast_one, pymax_eq_max, pymin_eq_min]
+  have ha : 0 < sqrt rho := hs rho hrho
+  have hc : 0 < sqrt (gamma * p * rho) := hs _ (by positivity)
+  generalize sqrt rho = a at ha
+  generalize sqrt (gamma * p * rho) = c at hc
+  have h2 : a + a ≠ 0 := by positivity
+  have e : (a * c + a * c) / (a + a) = c := by field_simp
+  rw [e]
+  have hS : min (u - c) (-c) < 0 := lt_of_le_of_lt (min_le_right _ _) (by linarith)
+  have hR : 0 < max (u + c) c := lt_of_lt_of_le hc (le_max_right _ _)
+  generalize min (u - c) (-c) = S at hS
+  generalize max (u + c) c = R at hR
+  rw [max_eq_right (by linarith : S ≤ R), min_eq_left (by linarith : S ≤ R)]
+  have hRS : R - S ≠ 0 := by
+    have : 0 < R - S := by linarith
+    exact this.ne'
+  have hp' : p ≠ 0 := hp.ne'
+  have h0 : (R * p - S * p) / (R - S) + R * S / (R - S) * (u - u) = p := by
+    field_simp; ring
+  refine ⟨trivial, h0, ?_⟩
+  rw [h0]; field_simp; ring
+
+theorem equal_states_hll_ball (hs : SqrtPos sqrt) (hrho : 0 < rho) (hp : 0 < p) (hg : 0 < gamma) :
+    EqualStates (hll_ball (fieldOps sqrt pow)) rho p u gamma tol niter := by
+  intro r0 r1
+  simp only [hll_ball, fieldOps_sqrt, fieldOps_abs, Nat.cast_ofNat, Nat.cast_one, pymax_eq_max,
+    pymin_eq_min]
+  have hc : 0 < sqrt (gamma * p / rho) := hs _ (by positivity)
+  generalize sqrt rho = a
+  generalize sqrt (gamma * p / rho) = c at hc
+  generalize sqrt ((a * c * c + a * c * c) / (a * a) +
+    1 / 2 * (gamma - 1) * (a * a) * (1 / (a + a)) * (1 / (a + a)) * (|u| - |u|) * (|u| - |u|)) = C
+  generalize (a * u + a * u) / (a * a) = U
+  have hS : min (U - C) (u - c) ≤ u - c := min_le_right _ _
+  have hR : u + c ≤ max (U + C) (u + c) := le_max_right _ _
+  generalize min (U - C) (u - c) = S at hS
+  generalize max (U + C) (u + c) = R at hR
+  have hRS : 0 < R - S := by linarith
+  have hRS' : R - S ≠ 0 := hRS.ne'
+  have hd : rho * (u - S) + rho * (R - u) = rho * (R - S) := by ring
+  have hrho' : rho ≠ 0 := hrho.ne'
+  have hu : (R * S * (rho - rho) + rho * u * R - rho * u * S) / (rho * (u - S) + rho * (R - u)) = u := by
+    rw [hd, div_eq_iff (mul_ne_zero hrho' hRS')]; ring
+  refine ⟨trivial, ?_, hu⟩
+  rw [hu]; field_simp; ring
+end
+end PysphVerif.C15
